@@ -121,7 +121,7 @@ class Sim:
                 continue
             r = e['ret']
             kind = 'ctor' if e['kind'] == 'ctor' else 'void' if r is None else \
-                'fn' if r in gen_iface.SCALARS else 'obj'
+                'fn' if gen_iface.scalar_ret(r) else 'obj'
             self.pidx[(e['id'], 'call')] = len(self.pents)
             self.pents.append('%s:%d:%s' % (qn, e['k'], kind))
         # pseudo entity for the header-API call wrap_shared_ptr(.., true) issued by the driver itself
@@ -168,7 +168,7 @@ class Sim:
         return len(self.handles) - 1
 
     def has_sibling(self, e):
-        return any(o is not e and o['kind'] == e['kind'] and o.get('cls') == e.get('cls') and o['name'] == e['name'] for o in self.ents)
+        return any(o is not e and o['kind'] == e['kind'] and o.get('cls') == e.get('cls') and o['name'] == e['name'] and o.get('fns') == e.get('fns') for o in self.ents)
 
     # -- argument generation
     def scalar(self, t, overloaded=False):
@@ -286,8 +286,8 @@ class Sim:
                 if e.get('effect'):
                     return False
                 if kind == 'ret':
-                    return r is not None and r not in gen_iface.SCALARS
-                if r is not None and r not in gen_iface.SCALARS:
+                    return r is not None and not gen_iface.scalar_ret(r)
+                if r is not None and not gen_iface.scalar_ret(r):
                     return False
                 return has_obj == (kind == 'objarg')
             cands = [e for e in self.ents if want(e)]
@@ -310,7 +310,7 @@ class Sim:
                 o = rng.choice(os_)
                 self.new_handle(T, o)
                 self.stats['fetch'] += 1
-                return (['func %s i%d' % (e['name'], o)],
+                return (['func %s i%d' % (e['qname'], o)],
                         ['call %d i%d / ret%d.%d' % (self.pidx[(e['id'], 'call')], o, o, T)])
             return None
         if kind == 'void':
@@ -338,7 +338,7 @@ class Sim:
             self.stats['release'] += 1
             if not self.obj_alive(o):
                 self.stats['object_destroyed_by_library_release'] += 1
-            return (['func %s i%d' % (e['name'], o)],
+            return (['func %s i%d' % (e['qname'], o)],
                     ['call %d i%d / drop%d' % (self.pidx[(e['id'], 'call')], o, o)])
         if kind == 'prop':
             es = [e for e in self.ents if e['kind'] == 'prop']
@@ -431,7 +431,7 @@ class Sim:
             self.objs[o]['ext'] += 1
             self.stats['hold'] += 1
         r = e['ret']
-        if r is not None and r not in gen_iface.SCALARS and r[0] == 'pair' and r[1][0] == 'copy':
+        if r is not None and not gen_iface.scalar_ret(r) and r[0] == 'pair' and r[1][0] == 'copy':
             # pair<T, U> by value: the library builds the pair (two copies, first then second), the wrapper copies
             # each member into a fresh shared_ptr, then the pair dies
             (_, t, i), (_, u, j) = r[1], r[2]
@@ -443,7 +443,7 @@ class Sim:
                        'alloc%d' % u, 'ret%d.%d' % (y, u), 'drop%d' % y, 'drop%d' % b, 'drop%d' % a]
             newh += [(t, x), (u, y)]
             self.stats['pair_by_value_return'] += 1
-        elif r is not None and r not in gen_iface.SCALARS:
+        elif r is not None and not gen_iface.scalar_ret(r):
             parts = [r[1], r[2]] if r[0] == 'pair' else [r]
             for p in parts:
                 micros += self.ret_micros(p, e, hs_, newh)
@@ -460,7 +460,7 @@ class Sim:
         elif e['kind'] == 'static':
             dline = 'static %s %s %s' % (self.classes[K]['matlab'], e['name'], ' '.join(dtok))
         else:
-            dline = 'func %s %s' % (e['name'], ' '.join(dtok))
+            dline = 'func %s %s' % (e['qname'], ' '.join(dtok))
         return ([dline.rstrip()], [mline.rstrip()])
 
 
@@ -681,9 +681,16 @@ def supplied_values_oracle(dl, impl, first_obs):
                 continue
             m = re.match(r'call=([^;]*);', obs)
             for entry in (m.group(1).split('|') if m else []):
-                m2 = re.match(r'(?:\w+::)*(\w+)\((.*)\)$', entry)
-                if not m2 or m2.group(1) != name:
+                m2 = re.match(r'((?:\w+::)*)(\w+)\((.*)\)$', entry)
+                if not m2:
                     continue
+                if tok[0] == 'func':
+                    # a free function is one C++ entity: the one with the fully qualified name of the MATLAB function
+                    if m2.group(1) + m2.group(2) != name.replace('.', '::'):
+                        continue
+                elif m2.group(2) != name:
+                    continue
+                m2 = re.match(r'(?:\w+::)*(\w+)\((.*)\)$', entry)
                 got = m2.group(2).split(',') if m2.group(2) else []
                 if tok[0] == 'call':
                     got = got[1:]          # the receiver
